@@ -93,6 +93,18 @@ namespace verif_drv
         void on_allocator_shrinking(void*, std::size_t) noexcept;
     };
 
+    // a tracker with state (makes any tracked_allocator stateful, whatever it wraps)
+    struct counting_tracker
+    {
+        void on_node_allocation(void*, std::size_t, std::size_t) noexcept;
+        void on_array_allocation(void*, std::size_t, std::size_t, std::size_t) noexcept;
+        void on_node_deallocation(void*, std::size_t, std::size_t) noexcept;
+        void on_array_deallocation(void*, std::size_t, std::size_t, std::size_t) noexcept;
+        void on_allocator_growth(void*, std::size_t) noexcept;
+        void on_allocator_shrinking(void*, std::size_t) noexcept;
+        std::size_t count;
+    };
+
     // element types for the object-creating helpers
     struct thrower
     {
@@ -102,6 +114,16 @@ namespace verif_drv
         thrower(thrower&&) noexcept(false);
         thrower& operator=(const thrower&) noexcept(false);
         ~thrower();
+        int v;
+    };
+    // default and move construction cannot throw, copying can (the interesting case for noexcept-based dispatch)
+    struct mixed_thrower
+    {
+        mixed_thrower() noexcept;
+        mixed_thrower(int) noexcept;
+        mixed_thrower(const mixed_thrower&) noexcept(false);
+        mixed_thrower(mixed_thrower&&) noexcept;
+        ~mixed_thrower();
         int v;
     };
     struct nothrower
